@@ -290,3 +290,5 @@ class Module:
 
 
 FLOPS = [cg.BlackBox("ff", ["clk", "d"], ["q"]), cg.BlackBox("dffr", ["CK", "D", "R"], ["Q", "QN"])]
+# the same module names with other pin sets (as in two cell libraries): each call uses the definitions it was given
+FLOPS_ALT = [cg.BlackBox("ff", ["CK", "D"], ["Q"]), cg.BlackBox("dffr", ["clk", "d", "rst", "en"], ["q"])]
